@@ -6,9 +6,19 @@ namespace M3d.RectSet
 set_option linter.unusedSectionVars false
 variable {K : Type} [LinearOrder K] [OfNat K 0]
 
-theorem Rect.contains_iff (r : Rect K) (p : List K) :
-    r.contains p = true ↔ ∀ i, i < 3 → r.lo.getD i 0 ≤ p.getD i 0 ∧ p.getD i 0 ≤ r.hi.getD i 0 := by
-  simp [Rect.contains, List.all_eq_true]
+theorem forall_lt_three {P : Nat → Prop} : (∀ i, i < 3 → P i) ↔ P 0 ∧ P 1 ∧ P 2 := by
+  constructor
+  · intro h; exact ⟨h 0 (by omega), h 1 (by omega), h 2 (by omega)⟩
+  · rintro ⟨h0, h1, h2⟩ i hi
+    match i, hi with
+    | 0, _ => exact h0
+    | 1, _ => exact h1
+    | 2, _ => exact h2
+
+theorem Rect.contains_iff (r : Rect K) (p : V3 K) :
+    r.contains p = true ↔ ∀ i, i < 3 → r.lo.get i ≤ p.get i ∧ p.get i ≤ r.hi.get i := by
+  rw [forall_lt_three]
+  simp [Rect.contains, List.all_cons, and_assoc]
 
 /-- What the alignment of the stored rects with the split planes gives at one node of the solid:
 rects filed under `below` end at or before the cutoff, rects under `above` start at or after it,
@@ -16,15 +26,17 @@ and the node's cached bounds enclose all of them. -/
 def Tree.WellSplit : Tree K → Prop
   | .empty => True
   | .single _ => True
+  | .many _ => True
   | .node axis cutoff below above lo hi =>
     below.WellSplit ∧ above.WellSplit ∧ axis < 3 ∧
-    (∀ r ∈ below.rects, r.hi.getD axis 0 ≤ cutoff) ∧
-    (∀ r ∈ above.rects, cutoff ≤ r.lo.getD axis 0) ∧
+    (∀ r ∈ below.rects, r.hi.get axis ≤ cutoff) ∧
+    (∀ r ∈ above.rects, cutoff ≤ r.lo.get axis) ∧
     (∀ r ∈ below.rects ++ above.rects, ∀ p, r.contains p = true → (⟨lo, hi⟩ : Rect K).contains p = true)
 
 theorem Tree.contains_eq_any : ∀ (t : Tree K), t.WellSplit → ∀ p, t.contains p = t.rects.any (fun r => r.contains p)
   | .empty, _, _ => rfl
   | .single r, _, p => by simp [Tree.contains, Tree.rects]
+  | .many rs, _, p => by simp [Tree.contains, Tree.rects]
   | .node axis cutoff below above lo hi, h, p => by
     obtain ⟨hb, ha, hax, hbelow, habove, hbox⟩ := h
     have ihb := Tree.contains_eq_any below hb p
@@ -61,6 +73,7 @@ theorem Tree.contains_eq_any : ∀ (t : Tree K), t.WellSplit → ∀ p, t.contai
 theorem Tree.wellSplitB_sound : ∀ (t : Tree K), t.wellSplitB = true → t.WellSplit
   | .empty, _ => trivial
   | .single _, _ => trivial
+  | .many _, _ => trivial
   | .node axis cutoff below above lo hi, h => by
     simp only [Tree.wellSplitB, Bool.and_eq_true, decide_eq_true_eq, List.all_eq_true] at h
     obtain ⟨⟨⟨⟨⟨hb, ha⟩, hax⟩, hbelow⟩, habove⟩, hbox⟩ := h
@@ -68,9 +81,28 @@ theorem Tree.wellSplitB_sound : ∀ (t : Tree K), t.wellSplitB = true → t.Well
     intro r hr p hcp
     rw [Rect.contains_iff] at hcp ⊢
     intro i hi3
-    have h1 := hbox r hr i (List.mem_range.mpr hi3)
+    have h1 := hbox r hr i (by match i, hi3 with | 0, _ | 1, _ | 2, _ => simp)
     have h2 := hcp i hi3
     exact ⟨le_trans h1.1 h2.1, le_trans h2.2 h1.2⟩
+
+/-- Unfolding of `build` for a set with at least two rects. -/
+theorem build_two (fuel : Nat) (s : RS K) (h : 2 ≤ s.rects.length) :
+    build (fuel + 1) s =
+      if (splitRectSet s).1.rects.isEmpty || (splitRectSet s).2.1.rects.isEmpty then some (.many s.rects)
+      else match build fuel (splitRectSet s).1, build fuel (splitRectSet s).2.1 with
+        | some b, some a => some (.node (splitRectSet s).2.2.1 (splitRectSet s).2.2.2 b a s.min s.max)
+        | _, _ => none := by
+  rcases hrs : s.rects with _ | ⟨r, _ | ⟨r', rest⟩⟩
+  · rw [hrs] at h; simp at h
+  · rw [hrs] at h; simp at h
+  · rw [build]
+    simp only [hrs]
+    rfl
+
+theorem splitRectSet_rects (s : RS K) :
+    ((splitRectSet s).1.rects ++ (splitRectSet s).2.1.rects).Perm s.rects := by
+  simp only [splitRectSet]
+  exact List.filter_append_perm _ _
 
 /-- The leaves of the tree `newRectSetSolid` builds are exactly the stored rects. -/
 theorem build_rects : ∀ (fuel : Nat) (s : RS K) (t : Tree K), build fuel s = some t → t.rects.Perm s.rects := by
@@ -79,19 +111,17 @@ theorem build_rects : ∀ (fuel : Nat) (s : RS K) (t : Tree K), build fuel s = s
   | zero => intro s t h; simp [build] at h
   | succ fuel ih =>
     intro s t h
-    unfold build at h
-    split at h
-    · cases h; rename_i he; rw [he]; exact List.Perm.refl _
-    · cases h; rename_i r he; rw [he]; exact List.Perm.refl _
-    · simp only [splitRectSet] at h
-      split at h
-      · rename_i b a hb ha
-        cases h
-        have p1 := ih _ _ hb
-        have p2 := ih _ _ ha
-        simp only [Tree.rects]
-        refine (p1.append p2).trans ?_
-        exact List.filter_append_perm _ _
-      · cases h
+    rcases hrs : s.rects with _ | ⟨r, _ | ⟨r', rest⟩⟩
+    · unfold build at h; simp only [hrs] at h; cases h; exact List.Perm.refl _
+    · unfold build at h; simp only [hrs] at h; cases h; exact List.Perm.refl _
+    · rw [build_two fuel s (by rw [hrs]; simp)] at h
+      split_ifs at h with hc
+      · cases h; rw [hrs]; exact List.Perm.refl _
+      · split at h
+        · rename_i b a hb ha
+          cases h
+          rw [← hrs]
+          exact ((ih _ _ hb).append (ih _ _ ha)).trans (splitRectSet_rects s)
+        · cases h
 
 end M3d.RectSet
